@@ -30,3 +30,51 @@ Fixpoint nodup_pairs (l : list (Z * bool)) : list (Z * bool) :=
   match l with [] => [] | x :: r => if existsb (pair_eqb x) r then nodup_pairs r else x :: nodup_pairs r end.
 Definition addrs_for_dial_wrong (keep : list Z -> Z -> bool) (es : list pent) : list Z :=
   let u := strip_p2p (nodup_pairs (resolve_all es)) in filter (keep u) u.
+
+(* ---- filterKnownUndialables (the part of addrsForDial after ma.Unique), in the code's order ----
+
+     1. addresses for which the swarm has no transport are removed and reported (ErrNoTransport)
+     2. filterLowPriorityAddresses AMONG THE ADDRESSES WE CAN DIAL: a /ws or /wss address is
+        dropped if a /tcp address on the same ip:port is left, a /webtransport address if a
+        /quic-v1 address on the same ip:port is left (no error for these)
+     3. (black-hole detector: disabled in the harness)
+     4. unspecified IPs are dropped (dial-to-self, link-local and the gater do not occur in the harness)
+     5. with ForceDirectDial: relayed addresses are dropped.
+
+   What is known about an address: its class, its ip:port group, whether the swarm has a
+   transport for it, whether its IP is unspecified, whether it is relayed. *)
+Record ainfo := mkAI { ai_cls : Z; ai_grp : Z; ai_tpt : bool; ai_unspec : bool; ai_proxy : bool }.
+
+Definition CLS_TCP : Z := 1.
+Definition CLS_WS : Z := 2.
+Definition CLS_QUIC : Z := 3.
+Definition CLS_WT : Z := 4.
+
+(* the class that is preferred over class c on the same ip:port (0: none) *)
+Definition preferred_cls (c : Z) : Z := if c =? CLS_WS then CLS_TCP else if c =? CLS_WT then CLS_QUIC else 0.
+
+Section Pipeline.
+  Variable info : Z -> ainfo.
+
+  Definition dominated (l : list Z) (a : Z) : bool :=
+    let pc := preferred_cls (ai_cls (info a)) in
+    negb (pc =? 0) && existsb (fun b => (ai_cls (info b) =? pc) && (ai_grp (info b) =? ai_grp (info a))) l.
+
+  Definition known_undialables (fdir : bool) (u : list Z) : list Z * list Z :=
+    let s1 := filter (fun a => ai_tpt (info a)) u in
+    let errs := filter (fun a => negb (ai_tpt (info a))) u in
+    let s2 := filter (fun a => negb (dominated s1 a)) s1 in
+    let s3 := filter (fun a => negb (ai_unspec (info a))) s2 in
+    ((if fdir then filter (fun a => negb (ai_proxy (info a))) s3 else s3), errs).
+
+  Definition addrs_pipeline (fdir : bool) (es : list pent) : list Z * list Z :=
+    known_undialables fdir (nodupz (strip_p2p (resolve_all es))).
+
+  (* a seeded defect: the low-priority filter before the no-transport filter *)
+  Definition known_undialables_wrong (fdir : bool) (u : list Z) : list Z * list Z :=
+    let s0 := filter (fun a => negb (dominated u a)) u in
+    let s1 := filter (fun a => ai_tpt (info a)) s0 in
+    let errs := filter (fun a => negb (ai_tpt (info a))) s0 in
+    let s3 := filter (fun a => negb (ai_unspec (info a))) s1 in
+    ((if fdir then filter (fun a => negb (ai_proxy (info a))) s3 else s3), errs).
+End Pipeline.
